@@ -73,7 +73,7 @@ fn viol(sig: String, msg: String, f: &[u8], suf: &[u8]) -> Violation {
 
 pub fn run(ctx: &Ctx, replay: Option<&J>) -> CheckResult {
     let rule = "valid frames of every payload length L=0..=1023 (random payloads, random reserved bits) plus every golden frame (typed decode) x \
-        suffixes {1,2,3 bytes, many random bytes, another valid frame, 0xD3 runs, 0x00/0xFF runs}; oracle: (frame_len, data_len, payload, \
+        suffixes {1,2,3 bytes, many random bytes, another valid frame, a copy of the frame itself, a damaged copy, >1029 random bytes, 0xD3 runs, 0x00/0xFF runs}; oracle: (frame_len, data_len, payload, \
         frame bytes, crc, message_number, Debug of decoded message) identical with and without suffix, message_number == first 12 payload bits \
         iff L>=2 else None (then decode is Empty). non-trivial = non-empty suffix; distinct = hash(frame, suffix)"
         .to_string();
@@ -125,6 +125,9 @@ pub fn run(ctx: &Ctx, replay: Option<&J>) -> CheckResult {
                     rng.bytes_len(4, 60),
                     other,
                     vec![0xD3; 1 + rng.below(8) as usize],
+                    f.clone(),
+                    rng.bytes_len(1030, 200),
+                    { let mut d = f.clone(); let n = d.len(); d[n / 2] ^= 0x10; d },
                     vec![0xFF; 1 + rng.below(5) as usize],
                     vec![0x00; 1 + rng.below(5) as usize],
                     golden.get(rng.below(golden.len().max(1) as u64) as usize).map(|g| g.1.clone()).unwrap_or_else(|| vec![1, 2, 3]),
